@@ -18,19 +18,22 @@ for d in sorted(glob.glob(os.path.join(VERIF, "harmless", "C*-*"))):
             verdicts.append("%s: proof obligation no longer checks, no failing input (`no-failing-input-found`)" % c)
         else:
             verdicts.append("%s: ALARM (exit %s)" % (c, v.get("exit")))
-    after = m.get("after_correction")
-    rows.append("| %s | %s | %s | %s | %s |" % (os.path.basename(d), (m.get("kind") or "").replace("|", "/"), (m.get("summary") or "").replace("|", "/").replace("\n", " ")[:330],
-                                          "; ".join(verdicts), after or ""))
+    after = m.get("after_correction") or ""
+    rr = m.get("rerun_after_round8") or {}
+    rr_txt = "; ".join("%s %s" % (k, v) for k, v in rr.items() if k not in ("lines", "tail"))
+    rows.append("| %s | %s | %s | %s | %s | %s |" % (os.path.basename(d), (m.get("kind") or "").replace("|", "/"), (m.get("summary") or "").replace("|", "/").replace("\n", " ")[:330],
+                                          "; ".join(verdicts), after, rr_txt))
 txt = """# Behaviour-preserving refactors (false-alarm drill)
 
 Each directory holds a change to /repo that an independent sub-agent (given only the text of one property, the list of functions it is
 anchored in and a scratch worktree) wrote as a *harmless* rewrite of that code: `patch.diff`, the agent's equivalence program
 `equiv.py` (its dump is byte-identical with and without the patch; confirmed by me together with the pinned suite: 42 pass, same 10
 fail) and `meta.json` with the verdicts of the quick checks run against it (`tools/harmless_eval.py`).  Expected verdict: quiet.
-The column "first run" is the verdict before anything was corrected; "after" is filled where the machinery was corrected (DESIGN.md §7).
+The column "first run" is the verdict before anything was corrected; "after" is filled where the machinery was corrected (DESIGN.md §7); the last
+column is the verdict of the property's own quick check re-run on every patch after the checks were strengthened in mutation round 8.
 
-| change | kind | what was rewritten | first run | after |
-|---|---|---|---|---|
+| change | kind | what was rewritten | first run | after | own check re-run after the round-8 strengthening |
+|---|---|---|---|---|---|
 """ + "\n".join(rows) + "\n"
 open(os.path.join(VERIF, "harmless", "README.md"), "w").write(txt)
 print(len(rows), "rows")
